@@ -484,9 +484,16 @@ func (g *streamGen) windowFillStream(F, j, nl, L, d, kind int) ([]byte, string) 
 
 // windowFillStreamAt also returns the compressed byte offset at which the interesting block starts.
 func (g *streamGen) windowFillStreamAt(F, j, nl, L, d, kind int) ([]byte, string, int) {
+	return g.windowFillStreamLead(F, j, nl, L, d, kind, 0)
+}
+
+// windowFillStreamLead: as windowFillStreamAt, with lead literals of the same block in front of the straddling
+// symbols (the assembly loop is then already running when it reaches them: it needs more than 24 bytes of input to
+// start). The returned offset is the compressed position of the straddling symbols.
+func (g *streamGen) windowFillStreamLead(F, j, nl, L, d, kind, lead int) ([]byte, string, int) {
 	// the stored prefix ends j bytes before the fill point; the nl literals and the match follow, so that for j = 0
 	// a packed literal+length entry is looked up exactly when the window is full
-	P := F - j
+	P := F - j - lead
 	if P < d {
 		P = d
 	}
@@ -511,6 +518,9 @@ func (g *streamGen) windowFillStreamAt(F, j, nl, L, d, kind int) ([]byte, string
 		}
 	}
 	var syms []synth.Sym
+	for i := 0; i < lead; i++ {
+		syms = append(syms, synth.Sym{Kind: synth.SymLit, Lit: 'a' + (i/3)%2})
+	}
 	for i := 0; i < nl; i++ {
 		syms = append(syms, synth.Sym{Kind: synth.SymLit, Lit: 'a' + i%2})
 	}
@@ -536,7 +546,16 @@ func (g *streamGen) windowFillStreamAt(F, j, nl, L, d, kind int) ([]byte, string
 	blk.Syms = syms
 	at := (w.Len() + 7) / 8
 	synth.BuildTo(w, blk, synth.Block{Final: true, Type: 0, Stored: []byte("end")})
-	return w.Bytes(), fmt.Sprintf("window-fill F=%d j=%d lits=%d match(%d,%d) kind=%d", F, j, nl, m.Len, d, kind), at
+	name := fmt.Sprintf("window-fill F=%d j=%d lits=%d match(%d,%d) kind=%d", F, j, nl, m.Len, d, kind)
+	if lead > 0 {
+		name += fmt.Sprintf(" lead=%d", lead)
+		if kind == 1 {
+			at += lead * 2 / 8 // 2-bit codes
+		} else {
+			at += lead // 8-bit codes
+		}
+	}
+	return w.Bytes(), name, at
 }
 
 // windowFillBlockEnd: stored prefix of F-j bytes, a NON-final dynamic block with 2-4 bit codes holding nl literals
